@@ -63,7 +63,8 @@ func init() {
 	reg("keys", 2, 2, func(m *Model, s *Session, a []string) Reply {
 		out := USet()
 		for _, k := range sortedKeys(m.DBs[s.DB]) {
-			if GlobMatch(a[1], k) {
+			// KEYS * is special-cased by Redis (it also returns the empty key name)
+			if a[1] == "*" || GlobMatch(a[1], k) {
 				out.A = append(out.A, Bulk(k))
 			}
 		}
